@@ -1069,6 +1069,25 @@ func (c *cliFront) plan(h *heapRun, o *obj, st Step) (*cliCall, string) {
 			return nil, "bag"
 		}
 		return &cliCall{argv: append([]string{"sample", "seqs", "--seed", strconv.Itoa(ai(a, "seed")), "--nb-seq=" + strconv.Itoa(ai(a, "nb"))}, un...)}, ""
+	case "Rarefy":
+		// `goalign sample rarefy -c <counts file> -n <nb>`: one line "name <TAB> count" per counted sequence
+		if !needsAlign() {
+			return nil, "bag"
+		}
+		var cb bytes.Buffer
+		for _, x := range alist(a, "counts") {
+			m := x.(map[string]interface{})
+			nm := i2b(toInts(m["n"]))
+			if !printable(nm) || bytes.ContainsAny(nm, "\t ") {
+				return nil, "names"
+			}
+			fmt.Fprintf(&cb, "%s\t%d\n", string(nm), ai(m, "c"))
+		}
+		cf := filepath.Join(c.dir, "counts.txt")
+		if os.WriteFile(cf, cb.Bytes(), 0o644) != nil {
+			return nil, "counts"
+		}
+		return &cliCall{argv: []string{"sample", "rarefy", "--seed", strconv.Itoa(ai(a, "seed")), "-c", cf, "-n", strconv.Itoa(ai(a, "nb"))}}, ""
 	case "RandSubAlign":
 		if !needsAlign() {
 			return nil, "bag"
